@@ -421,3 +421,18 @@ CORPUS += [
 CORPUS += [
     V("C02", "mtvrp-limit-checked-one-way", _MG, "            dist_to_depot * 2 < self.distance_limit  # go back and forth", "            dist_to_depot < self.distance_limit", "C02.m"),
 ]
+
+# ---- round 9 (half round)
+_DU9 = "rl4co/envs/common/distribution_utils.py"
+_JG9 = S_ + "jssp/generator.py"
+CORPUS += [
+    V("C09", "pdp-stamps-the-node-it-stands-on", _PDE7, "        for i in range(gs):\n            current_nodes = next_rec[arange, pre]\n            visited_time[arange, current_nodes] = i + 1\n            pre = current_nodes", "        current_nodes = pre\n        for i in range(gs):\n            visited_time[arange, current_nodes] = i + 1\n            current_nodes = next_rec[arange, current_nodes]", "C09.i"),
+    V("C13", "beam-scores-reindexed-twice", _DEC, "        mask = mask[batch_beam_idx]\n\n        assert (", "        mask = mask[batch_beam_idx]\n        self.parent_beam_logprobs = self.parent_beam_logprobs[batch_beam_idx]\n\n        assert (", "C13.k"),
+    V("C15", "multistart-augment-eval-min-of-abs", _EV, "        rewards, max_idxs = rewards.max(dim=1)\n        actions = gather_by_index(actions, max_idxs, dim=1)\n        return actions, rewards\n\n    @property\n    def num_augment", "        _, max_idxs = rewards.abs().min(dim=1)\n        rewards = gather_by_index(rewards, max_idxs, dim=1)\n        actions = gather_by_index(actions, max_idxs, dim=1)\n        return actions, rewards\n\n    @property\n    def num_augment", "C15.m"),
+    V("C15", "avg-reward-mean-of-batch-means", _EV, '            "avg_reward": rewards.cpu().mean(),', '            "avg_reward": torch.stack([r.mean() for r in rewards_list]).mean().cpu(),', "C15.n"),
+    V("C14", "avg-reward-mean-of-batch-means-c14", _EV, '            "avg_reward": rewards.cpu().mean(),', '            "avg_reward": torch.stack([r.mean() for r in rewards_list]).mean().cpu(),', "C14.l"),
+    V("C15", "eq-avg-reward-mean-then-cpu", _EV, '            "avg_reward": rewards.cpu().mean(),', '            "avg_reward": rewards.mean().cpu(),', None),
+    V("C18", "gaussian-mixture-centred-by-its-mean", _DU9, "            coords + (1 - coords.max(dim=1, keepdim=True).values) / 2", "            coords + 0.5 - coords.mean(dim=1, keepdim=True)", "C18.x"),
+    V("C18", "eq-gaussian-mixture-half-slack", _DU9, "            coords + (1 - coords.max(dim=1, keepdim=True).values) / 2", "            coords + 0.5 * (1 - coords.max(dim=1, keepdim=True).values)", None),
+    V("C18", "jssp-durations-floor-of-rand", _JG9, "        proc_times = torch.randint(\n            self.min_processing_time,\n            self.max_processing_time + 1,\n            size=(*bs, self.num_mas, n_ops_max),\n        )", "        proc_times = (torch.rand((*bs, self.num_mas, n_ops_max)) * self.max_processing_time).floor() + self.min_processing_time", "C18.w"),
+]
